@@ -159,6 +159,22 @@ def _reserved_scan(cont, model, cfg, ctx, fine):
                             "what": f"{gname}.{method} with reserved path '{rp2}' raised but changed the container",
                             "sig": {"method": method, "pos": pos},
                         }
+    # copy with a node object as destination and the reserved name given through `name=`
+    if existing is not None:
+        for gname, grp in groups:
+            for rn in ("metador_x", "metador_meta_", "metador_meta_" + d):
+                n += 1
+                try:
+                    grp.copy(existing, grp, name=rn)
+                    refused = False
+                except env.StepTimeout:
+                    raise
+                except Exception:
+                    refused = True
+                if not refused:
+                    return {"kind": "reserved-path-accepted", "what": f"{gname}.copy({existing}, <group node>, name='{rn}') accepted a reserved name", "sig": {"method": "copy", "pos": "name"}}
+                if fine and _raw_fingerprint(cont) != before:
+                    return {"kind": "reserved-path-effect", "what": f"{gname}.copy({existing}, <group node>, name='{rn}') raised but changed the container", "sig": {"method": "copy", "pos": "name"}}
     if _raw_fingerprint(cont) != before:
         return "changed"
     return None
